@@ -135,7 +135,13 @@ def gen_cases(tier, seed):
            "pref": [1, 4], "spins": mixed}
     # four indices of one space (diagonal blocks, with and without bra-ket
     # symmetry; a tensor with all indices in one group)
-    for bk in (0, 1):
+    # bra-ket antisymmetric tensors: the same normalisation (partner block folded in, diagonal
+    # block restricted within bra and within ket only)
+    yield {"objs": [["T", ["i", "a"], 1], ["Z", ["i", "a"], 1]], "tkind": "anti", "pref": [1, 1], "bk": -1}
+    yield {"objs": [["T", ["i", "j"], 1], ["Z", ["i", "j"], 1]], "tkind": "anti", "pref": [1, 1], "bk": -1}
+    yield {"objs": [["T", ["i", "j", "a", "b"], 1], ["Z", ["i", "j", "a", "b"], 1]], "tkind": "anti",
+           "pref": [1, 2], "bk": -1}
+    for bk in (0, 1, -1):
         yield {"objs": [["T", ["i", "j", "k", "l"], 1], ["Z", ["i", "j", "k", "l"], 1]], "tkind": "anti",
                "pref": [1, 1], "bk": bk, "big": True}
     yield {"objs": [["T", ["i", "j", "k", "l"], 1], ["Z", ["i", "j"], 1], ["Z", ["k", "l"], 1]], "tkind": "anti",
@@ -179,7 +185,7 @@ def gen_cases(tier, seed):
             take = min(len(odd), rng.choice([1, 2, 3]))
             objs.append(["Z", [odd.pop() for _ in range(take)], 1])
         yield {"objs": objs, "tkind": tkind, "pref": [rng.choice([1, -1, 3]), rng.choice([1, 2, 4])],
-               "bk": rng.choice([0, 0, 1]),
+               "bk": rng.choice([0, 0, 1, -1]),
                "spins": rng.choice([None, None, {n: rng.choice("ab") for n in OCC + VIRT}])}
 
 
